@@ -11,6 +11,7 @@ package main
 
 import (
 	"os"
+	"runtime/debug"
 	"runtime/pprof"
 	"strings"
 
@@ -26,5 +27,6 @@ func main() {
 		pprof.StartCPUProfile(f)
 		defer pprof.StopCPUProfile()
 	}
+	debug.SetGCPercent(1000) // many short-lived page buffers per case
 	h.Main(verifacc.GenC07, run)
 }
